@@ -1,5 +1,5 @@
 #!/bin/bash
-# Validate a seeded change produced by a sub-agent, in its scratch worktree:
+# Validate a seeded change in a scratch worktree (NO git stash: stashes are shared between worktrees):
 #  (a) the repository's suite has no new failures with the change,
 #  (b) the demonstration fails with the change, (c) passes without it.
 # usage: validate_seed.sh <PID> [<worktree>] ; results in /tmp/seeds/<PID>/validation.txt
@@ -7,14 +7,19 @@ PID=$1; WT=${2:-/tmp/wt/$PID}; SD=/tmp/seeds/$PID
 OUT=$SD/validation.txt; : > $OUT
 cd $WT || exit 2
 git -C $WT diff -- kopf > $SD/patch.check.diff
-if ! diff -q <(grep -v '^index' $SD/patch.diff) <(grep -v '^index' $SD/patch.check.diff) >/dev/null; then echo "NOTE: patch.diff differs from worktree diff; using worktree diff" >> $OUT; cp $SD/patch.check.diff $SD/patch.diff; fi
+if [ ! -s $SD/patch.check.diff ]; then echo "NOTE: worktree clean; applying patch.diff" >> $OUT; git -C $WT apply $SD/patch.diff || exit 3; git -C $WT diff -- kopf > $SD/patch.check.diff; fi
+if ! diff -q <(grep -v '^index' $SD/patch.diff) <(grep -v '^index' $SD/patch.check.diff) >/dev/null; then echo "NOTE: patch.diff differs from worktree diff; worktree reset to patch.diff" >> $OUT; git -C $WT checkout -- kopf; git -C $WT apply $SD/patch.diff || exit 3; fi
+echo "files: $(git -C $WT diff --stat -- kopf | tail -1)" >> $OUT
+DEMO=$SD/demo_test.py
+NEEDS_COPY=$(grep -l -E "tests/|conftest" $SD/notes.md >/dev/null 2>&1 && grep -oE "tests/[a-zA-Z_/]+/" $SD/notes.md | head -1)
+run_demo() { if [ -n "$DEMO_DIR" ]; then cp $DEMO $WT/$DEMO_DIR/test_zz_demo_seed.py; (cd $WT && PYTHONPATH=$WT timeout 600 /venv/bin/python -m pytest -q -p no:cacheprovider --timeout=300 $DEMO_DIR/test_zz_demo_seed.py); rc=$?; rm -f $WT/$DEMO_DIR/test_zz_demo_seed.py; return $rc; else (cd $WT && PYTHONPATH=$WT timeout 600 /venv/bin/python -m pytest -q -p no:cacheprovider --timeout=300 $DEMO); fi; }
+DEMO_DIR=${DEMO_DIR:-}
 echo "== suite with change" >> $OUT
 PYTHONPATH=$WT /venv/bin/python -m pytest -q -p no:cacheprovider --timeout=900 --continue-on-collection-errors -ra 2>&1 | grep -E '^(FAILED|ERROR)' | cut -d' ' -f1,2 | sort -u > $SD/my_with_change_fail.txt
 if diff $SD/baseline_fail.txt $SD/my_with_change_fail.txt >> $OUT; then echo "SUITE: no new failures" >> $OUT; else echo "SUITE: DIFFERS" >> $OUT; fi
 echo "== demo with change" >> $OUT
-DEMO=$SD/demo_test.py
-PYTHONPATH=$WT timeout 600 /venv/bin/python -m pytest -q -p no:cacheprovider --timeout=300 $DEMO > $SD/demo_with.log 2>&1; echo "DEMO_WITH exit=$?" >> $OUT; tail -3 $SD/demo_with.log >> $OUT
-git -C $WT stash -q
-PYTHONPATH=$WT timeout 600 /venv/bin/python -m pytest -q -p no:cacheprovider --timeout=300 $DEMO > $SD/demo_without.log 2>&1; echo "DEMO_WITHOUT exit=$?" >> $OUT; tail -3 $SD/demo_without.log >> $OUT
-git -C $WT stash pop -q
+run_demo > $SD/demo_with.log 2>&1; echo "DEMO_WITH exit=$?" >> $OUT; tail -3 $SD/demo_with.log >> $OUT
+git -C $WT checkout -- kopf
+run_demo > $SD/demo_without.log 2>&1; echo "DEMO_WITHOUT exit=$?" >> $OUT; tail -3 $SD/demo_without.log >> $OUT
+git -C $WT apply $SD/patch.diff
 echo "DONE" >> $OUT
